@@ -57,36 +57,59 @@ def build_prop_class(cfg, faults):
         ns["__annotations__"] = {"prop": int}
     else:
         ns["__annotations__"] = {}
+    prep_fn = prep_fn_of(cfg)
+
+    def _prepare_prop(self, v):
+        faults.hit("preparer")
+        return PREP_FNS[prep_fn](v) if isinstance(v, int) and not isinstance(v, bool) else v
+
     if host == "spec_annotated_prepared":
-        def _prepare_prop(self, v):
-            faults.hit("preparer")
-            return abs(v) if isinstance(v, int) and not isinstance(v, bool) else v
         ns["_prepare_prop"] = _prepare_prop
     if host == "spec_sub_narrowed":
-        # the property lives on a parent that annotates the attribute widely; the class under test is a spec subclass
-        # that re-annotates it as int and inherits the getter: results are judged by the instance's own annotation
+        # the property lives on a parent that annotates the attribute widely (or not at all); the class under test is a
+        # spec subclass that re-annotates it as int (possibly with a preparer of its own) and inherits the getter: results
+        # are judged by the annotation and preparer of the class of the instance that is read, whichever class read first
         import typing
-        ns["__annotations__"] = {"prop": typing.Union[int, str]}
+        ns["__annotations__"] = {"prop": typing.Union[int, str]} if cfg.get("parent", "wide") == "wide" else {}
         base = spec_class(bootstrap=cfg.get("eager", True))(type("PBase", (), ns))
-        return spec_class(bootstrap=cfg.get("eager", True))(
-            type("PHost", (base,), {"__module__": "specsim.generated", "__annotations__": {"prop": int}}))
+        sns = {"__module__": "specsim.generated", "__annotations__": {"prop": int}}
+        if prep_fn:
+            sns["_prepare_prop"] = _prepare_prop
+        return spec_class(bootstrap=cfg.get("eager", True))(type("PHost", (base,), sns))
     cls = type("PHost", (), ns)
     if host != "plain":
         cls = spec_class(bootstrap=cfg.get("eager", True))(cls)
     return cls
 
 
+PREP_FNS = {"abs": abs, "plus100": lambda v: v + 100}  # (the second is not idempotent: a stored value must not meet it twice)
+
+
+def prep_fn_of(cfg):
+    if cfg["host"] == "spec_annotated_prepared":
+        return cfg.get("prep_fn") or "abs"
+    if cfg["host"] == "spec_sub_narrowed":
+        return cfg.get("prep_fn")
+    return None
+
+
 class PropModel:
-    def __init__(self, cfg):
+    def __init__(self, cfg, role="self"):
         self.cfg = cfg
         self.base = 0
         self.slot = _NONE
         self.managed = cfg["host"] in ("spec_annotated", "spec_annotated_prepared", "spec_sub_narrowed")
-        self.prepared = cfg["host"] == "spec_annotated_prepared"
+        self.prep_fn = prep_fn_of(cfg)
+        self.types = (int,)
+        if role == "parent":
+            # an instance of the parent class of the "spec_sub_narrowed" host: same descriptor, other metadata
+            self.managed = cfg.get("parent", "wide") == "wide"
+            self.prep_fn = None
+            self.types = (int, str)
 
     def prep(self, v):
-        if self.prepared and isinstance(v, int) and not isinstance(v, bool):
-            return abs(v)
+        if self.prep_fn and isinstance(v, int) and not isinstance(v, bool):
+            return PREP_FNS[self.prep_fn](v)
         return v
 
     def read(self):
@@ -96,7 +119,7 @@ class PropModel:
         v = self.base * 10 if c["getter"] == "times10" else str(self.base)
         if self.managed:
             v = self.prep(v)
-            if not isinstance(v, int):
+            if not isinstance(v, self.types):
                 return ("raise", (ValueError, TypeError))
         if c["cache"]:
             self.slot = v
@@ -106,7 +129,7 @@ class PropModel:
         c = self.cfg
         if self.managed:
             pv = self.prep(v)
-            if not isinstance(pv, int):
+            if not isinstance(pv, self.types):
                 return ("raise", (TypeError, ValueError))
             v = pv
         if c["setter"]:
@@ -236,6 +259,13 @@ class C12(Check):
                 cfg = {"mode": "prop", "overridable": src.chance(0.5), "cache": src.chance(0.5), "setter": src.chance(0.5),
                        "deleter": src.chance(0.5), "host": src.choice(HOSTS), "getter": src.choice(["times10"] * 4 + ["tostr"]),
                        "eager": src.chance(0.6), "style": src.choice(["ctor", "ctor", "chain", "chain_rev", "renamed"])}
+                if cfg["host"] == "spec_annotated_prepared":
+                    cfg["prep_fn"] = src.choice(["abs", "plus100"])
+                elif cfg["host"] == "spec_sub_narrowed":
+                    cfg["parent"] = src.choice(["wide", "unannotated"])
+                    cfg["prep_fn"] = src.choice([None, "abs", "plus100"])
+                    if src.chance(0.4):
+                        cfg["getter"] = "tostr"  # conforming for the parent's annotation, not for the subclass's
             else:
                 cfg = {"mode": "class", "cache": src.chance(0.6), "per_subclass": src.chance(0.5),
                        "overridable": src.chance(0.5), "spec": src.chance(0.4), "csetter": src.chance(0.3),
@@ -249,10 +279,16 @@ class C12(Check):
             cls = build_prop_class(cfg, faults)
             obj = cls()
             model = PropModel(cfg)
+            pobj = pmodel = None
+            if cfg["host"] == "spec_sub_narrowed":
+                pobj, pmodel = cls.__mro__[1](), PropModel(cfg, role="parent")
             for idx in range(n_ops):
                 op = ops_in[idx] if ctx.replay else self.gen_prop_op(src, cfg)
                 ctx.case["ops"].append(op)
-                self.step_prop(ctx, cfg, faults, obj, model, op, idx)
+                if op.get("on") == "parent" and pobj is not None:
+                    self.step_prop(ctx, cfg, faults, pobj, pmodel, op, idx)
+                else:
+                    self.step_prop(ctx, cfg, faults, obj, model, op, idx)
         else:
             classes, state = build_classprop_hierarchy(cfg, faults)
             objs = {k: c() for k, c in classes.items()}
@@ -273,6 +309,10 @@ class C12(Check):
         elif k == "base":
             op["v"] = src.choice([1, 2, 5])
         op["fault"] = src.chance(0.15)
+        if (cfg or {}).get("host") == "spec_sub_narrowed" and src.chance(0.35):
+            op["on"] = "parent"  # the same descriptor reached through an instance of the parent class
+            if k == "assign" and op["v"] is None:
+                op["v"] = "txt"
         return op
 
     def step_prop(self, ctx, cfg, faults, obj, model, op, idx):
@@ -309,6 +349,8 @@ class C12(Check):
         ctx.cell("prop", combo, style, cfg["host"], cfg["getter"], k, slot_before, outcome)
         ctx.log(idx, k, outcome)
         sig = {"mode": "prop", "combo": combo, "style": style, "host": cfg["host"], "op": k, "slot_before": slot_before}
+        if op.get("on") == "parent":
+            sig["on"] = "parent"
         if fired and exc is not None:
             # a user callback raised: the operation had no effect on the protocol state -- in particular a getter
             # that raises must not leave a cache entry
